@@ -107,6 +107,34 @@ func (e *Engine) VerifyFunction(fn *ssa.Function, c *Contract) (res *FnCtx) {
 	if c.Trusted != "" {
 		return fc
 	}
+	// lemmas applied in this function: each is proved once, over fresh constants and without any fact of the function
+	provedLemma := map[string]bool{}
+	for _, ap := range c.Applies {
+		if provedLemma[ap.Lemma] {
+			continue
+		}
+		provedLemma[ap.Lemma] = true
+		ax := e.lemmaByName(ap.Lemma)
+		if ax == nil {
+			fc.unsupported("apply: unknown lemma %s", ap.Lemma)
+			continue
+		}
+		env := fr.specEnv(st, st, nil, nil)
+		env.vars = map[string]Val{}
+		for _, v := range ax.Vars {
+			env = env.withBound(v, Val{S: fc.freshConst("lem_"+ax.Name+"_"+v, "Int"), Typ: tInt})
+		}
+		for _, pk := range e.pkgs {
+			if pk.PkgPath == ax.Pkg {
+				env.pkg = pk.Types
+			}
+		}
+		body := fr.evalBool(ax.E, env)
+		if o := fc.oblige("lemma", ax.Name, "true", body, fn.Pos(), c.Props); o != nil {
+			o.NFacts = 0
+			fc.facts = fc.facts[:len(fc.facts)-1]
+		}
+	}
 	fr.run(st, "true")
 	// post-conditions per return site
 	for ri, r := range fr.rets {
@@ -143,7 +171,7 @@ func (e *Engine) VerifyFunction(fn *ssa.Function, c *Contract) (res *FnCtx) {
 		}
 		// cover: the return site is reachable - unless the contract declares the code after a certain call dead under
 		// its (restricting) pre-conditions; then the return site must be proved unreachable instead
-		if fr.deadReturn(c, r.blk) {
+		if fr.deadReturn(c, r.blk) || fr.deadReturnOrdinal(c, r) {
 			if o := fc.oblige("dead", fmt.Sprintf("return#%d", ri+1), r.guard, "false", r.pos, c.Props); o != nil {
 				fc.facts = fc.facts[:len(fc.facts)-1]
 			}
@@ -660,6 +688,25 @@ func (fr *Frame) deadReturn(c *Contract, blk *ssa.BasicBlock) bool {
 					return true
 				}
 			}
+		}
+	}
+	return false
+}
+
+// deadReturnOrdinal: the contract says `dead return <n>` and this return site is the n-th return statement in source order
+func (fr *Frame) deadReturnOrdinal(c *Contract, r retSite) bool {
+	if len(c.DeadReturns) == 0 {
+		return false
+	}
+	ord := 1
+	for _, o := range fr.rets {
+		if o.pos < r.pos {
+			ord++
+		}
+	}
+	for _, n := range c.DeadReturns {
+		if n == ord {
+			return true
 		}
 	}
 	return false
